@@ -11,7 +11,7 @@ usage: tools/sensitivity.py [--only NAME] [--tests] [--keep] [--seeded]
 """
 import json, os, shutil, subprocess, sys, time
 
-BASE = "/tmp/hposim-mut"
+BASE = os.environ.get("HPOSIM_MUT_BASE", "/tmp/hposim-mut")
 REPO = BASE + "/repo"
 SIM = BASE + "/sim"
 TARGET = BASE + "/target"
@@ -174,7 +174,7 @@ def main():
         if "--seeded" not in sys.argv:
             for (name, prop, f, old, new, checks) in M:
                 items.append((name, prop, ("replace", f, old, new), checks))
-        if os.path.isdir("/verif/seeded"):
+        if "--seeded" in sys.argv and os.path.isdir("/verif/seeded"):
             for d in sorted(os.listdir("/verif/seeded")):
                 meta = f"/verif/seeded/{d}/meta.json"
                 if os.path.exists(meta):
